@@ -15,6 +15,7 @@
 #include <sys/wait.h>
 #include <sys/time.h>
 #include <sys/resource.h>
+#include <malloc.h>
 
 #define MAX_KEYS     256
 #define MAX_COUNTERS 160
@@ -264,6 +265,31 @@ bool mc_guard_check(const mc_guard_t* g) {
 }
 void mc_guard_free(mc_guard_t* g) { if (g->base) munmap(g->base, g->map_len); g->base = NULL; }
 
+void mc_arena_init(mc_arena_t* a, size_t cap) {
+    size_t body = ((cap + 128 + PG - 1) / PG) * PG;
+    uint8_t* base = mmap(NULL, body + 2 * PG, PROT_READ | PROT_WRITE, MAP_PRIVATE | MAP_ANONYMOUS, -1, 0);
+    if (base == MAP_FAILED) mc_harness_error("mmap failed");
+    mprotect(base, PG, PROT_NONE); mprotect(base + PG + body, PG, PROT_NONE);
+    a->lo = base + PG; a->hi = base + PG + body; a->cur = NULL; a->cur_n = 0; a->cur_tail = 0;
+}
+uint8_t* mc_arena_tail(mc_arena_t* a, size_t n) {
+    if (n + 64 > (size_t)(a->hi - a->lo)) mc_harness_error("arena too small for %zu", n);
+    a->cur = a->hi - n; a->cur_n = n; a->cur_tail = 1;
+    memset(a->cur - 64, 0xCA, 64);
+    return a->cur;
+}
+uint8_t* mc_arena_head(mc_arena_t* a, size_t n) {
+    if (n + 64 > (size_t)(a->hi - a->lo)) mc_harness_error("arena too small for %zu", n);
+    a->cur = a->lo; a->cur_n = n; a->cur_tail = 0;
+    memset(a->cur + n, 0xCA, 64);
+    return a->cur;
+}
+bool mc_arena_check(const mc_arena_t* a) {
+    const uint8_t* c = a->cur_tail ? a->cur - 64 : a->cur + a->cur_n;
+    for (int i = 0; i < 64; i++) if (c[i] != 0xCA) return false;
+    return true;
+}
+
 void* mc_exact(const void* src, size_t n) {
     void* p = malloc(n ? n : 1);
     if (!p) mc_harness_error("oom");
@@ -451,6 +477,10 @@ int mc_main(int argc, char** argv, const char* harness, void (*enumerate)(void))
     if (S == MAP_FAILED) { perror("mmap"); return 3; }
     S->cur_stage = -1; S->sample_next = 1;
     setvbuf(stdout, NULL, _IOLBF, 0);
+#if !defined(__SANITIZE_ADDRESS__)
+    /* keep big blocks (zlib/zstd states) in the heap: mmap per allocation means page faults per case */
+    mallopt(M_MMAP_THRESHOLD, 1 << 30); mallopt(M_TRIM_THRESHOLD, 1 << 30); mallopt(M_TOP_PAD, 64 << 20);
+#endif
 
     if (g_only_active) {
         /* replay exactly one case, in-process, printing observations */
